@@ -3,11 +3,81 @@ from vq.meta import _m
 _m(
     "C05",
     "exploration",
-    "placeholder",
-    [],
+    "Hypothesis draws two kinds of case; every array is a pure function of drawn integer seeds/parameters.  "
+    "(resume) a tiny ptychography problem built through the public constructors (Dataset4dstem -> "
+    "PtychographyDatasetRaster.preprocess -> ProbePixelated.from_array/from_params, ObjectPixelated.from_array/"
+    "from_random/from_uniform -> Ptychography.preprocess): ROI 4..12 per axis (odd/even, non-square), 2..5 x 2..5 scan "
+    "positions (<= 25 patterns from a harness-side numpy simulator, 1/100/1e4 counts), scan step 1..3 object pixels "
+    "(integers when scan positions are learned), padding 0..4, 80/200/300 keV, object type complex / pure_phase / "
+    "potential, 1..2 slices, 1..2 probe modes, optionally a learned probe tilt; optimisers for object (always), probe "
+    "(4 of 5) and dataset = descan shifts + scan positions (1 of 3), each sgd (optionally momentum 0.5/0.9; lr also the "
+    "Python int 1) / adam / adamw (optionally betas, amsgrad, weight_decay) with log-uniform learning rates; per model a "
+    "scheduler none / exp (gamma or factor) / linear / cyclic (step sizes 1..3, three modes) / plateau (patience, "
+    "cooldown 0..1) parametrised to act within 6 iterations (always one when lr is an int); constraints positivity, "
+    "identical_slices, orthogonalize_probe, descan_shifts_constant, TV weights (object xy/z, probe, descan); total "
+    "iterations n in 2..6 cut into 2 (any split k in 0..n) or 3 segments; later calls optionally set new constraints, a "
+    "new scheduler or new optimiser parameters; store zip/dir (second boundary uses the other one), from_file(device=None|"
+    "'cpu'), reconstruct(device=None|'cpu'), snapshots on/off, batch_size None or = number of patterns (always full "
+    "batch), which of original/clone is continued first.  "
+    "(skip) the same problems, 1..3 iterations, then a history of 2..3 Ptychography.save calls on one object with skip "
+    "lists over {_iter_losses, _iter_lrs, _snapshots, _iter_recon_types, _iter_val_losses, _obj_fov_mask, _dset, dset, the "
+    "types list and dict} given as list / tuple / single value or as ONE caller-owned list object passed to every call, "
+    "save_raw_data True/False, zip/dir; the last call is always complete (save_raw_data=True, dataset not skipped).  "
+    "A case is NON-TRIVIAL when: resume - the first interruption is strictly inside the run (0 < k < n) and either a "
+    "stateful optimiser (adam, adamw, sgd with momentum) or an active scheduler is carried across it (the next call does "
+    "not replace it); skip - some complete save is preceded by a save that skipped something (by name, by type or through "
+    "save_raw_data=False) which the complete save itself does not skip.  distinct = SHA-1 of the canonical JSON of the "
+    "whole case.",
+    [
+        "reference = an identically built object that runs the same calls without ever being saved or cloned (A); the "
+        "interrupted object is a second build (P).  Compared against A after every segment: the reloaded object (chain: "
+        "re-saved/re-loaded at each boundary), the clone (chain), and P itself continued after save()/clone().  Right after "
+        "every save/load/clone: loaded/cloned object vs its source and source vs itself before the call, exactly "
+        "(num_iters, iter_losses, iter_lrs, constraints; obj/probe to 1e-7*max), device and attribute set of the source "
+        "unchanged",
+        "tolerances for the continuation: losses 2e-5 relative per iteration, LR history 1e-6 relative, object/probe "
+        "1e-6 + 2e-4*max|ref| (+ 2e-3 x sum of that model's learning rates since the first interruption when the model is "
+        "driven by Adam/AdamW).  Clean-tree measurement over 1000 generated cases (4000 comparisons, fixed tree): worst "
+        "loss deviation 7e-7 relative (0.036 of tolerance; 1.5e-6 seen once in an earlier 800-case sample), LR histories "
+        "identical, object 0.008 and probe 0.0065 of tolerance",
+        "the pattern order inside the full batch is re-drawn from an unseeded generator after a reload (numpy generator "
+        "state is not restored; clone() goes through save/reload because deepcopy fails on non-leaf tensors): summation "
+        "order and hence float32 rounding differ between the uninterrupted run and every continuation; results of the "
+        "continuations are not bit-reproducible from run to run",
+        "object comparison for Adam/AdamW-driven objects and for complex/pure_phase objects with autograd is restricted to "
+        "the well-illuminated pixels (harness-side illumination map > 5 % of its maximum, np.add.at of the initial probe "
+        "intensity over the patch indices), complex/pure_phase modulo one global phase: Adam normalises every pixel's step "
+        "to ~lr while float32 FFT rounding is relative to the largest gradient (weak pixels: steps differ by 1e-2*lr between "
+        "two summation orders), and the mean-phase subtraction in the forward model feeds pure rounding noise "
+        "(-mean(h), sum(h) == 0 analytically) to never-illuminated pixels; SGD-driven potential objects and analytic "
+        "gradients are compared on every pixel",
+        "total-variation weights are drawn only for a model driven by SGD in every call (object: only from a random-array "
+        "start): TV's gradient is sign(diff), TV pulls neighbours to equality and Adam's lr-sized steps reach ties within "
+        "a few iterations, whose sign is then rounding noise (measured 0.7e-4 deviations at weight 0.01)",
+        "scan positions are learned only from integer-pixel starts (a position exactly at x.5 would be rounded by noise); "
+        "measured movement <= 0.1 px (sgd) / 0.3 px (adam) in 6 iterations",
+        "not drawn (measured to break float32 reproducibility between two summation orders, independent of "
+        "checkpointing): ProbeParametric (aberration-coefficient gradients carry ~1e-3 relative rounding noise), the "
+        "poisson loss (log of ~0 predicted intensities), l1 losses; DIP models (cost)",
+        "a reference run that raises is skipped (not a checkpoint matter); a reference run that is not finite or whose loss "
+        "grows > 50x only gets the exact save/load/clone state checks (rounding differences are amplified without bound in "
+        "a diverging optimisation); 0-iteration calls never rely on scheduler defaults derived from num_iters (they divide "
+        "by zero in the uninterrupted run as well)",
+        "skip kind: only complete saves are judged (the property speaks about saving together with the data), and only for "
+        "the items that very call did not skip; that skipped items are absent is not asserted",
+        "mini-batch updates (batch_size < number of patterns) and GPU devices are outside the domain (CPU-only machine: "
+        "device moves are no-ops, optimizer re-binding after a real device change is not observable here)",
+    ],
     workers=(4, 16),
-    technique="property-based testing (Hypothesis)",
-    text="",
-    note="",
+    technique="property-based testing (Hypothesis): differential run of the same generated call sequence on an uninterrupted "
+    "object vs reloaded / cloned / saved-original continuations, plus generated histories of save() calls with different skip "
+    "arguments; exact state equality right after save/load/clone",
+    text="Generated-input search (about 0.8 s per case; quick = 4 workers x 65 cases without shrinking, thorough = 16 workers "
+    "x 580 cases).  Every case is judged against a never-interrupted run of the same calls and against the reported state of "
+    "the object that was saved/cloned.  The worst observed error/tolerance ratio per quantity is reported under "
+    "coverage.extra.  Exploration only: no absence claim.",
+    note="CPU only: parameter/optimizer re-binding after a real device move cannot be observed (an early return in "
+    "reconnect_optimizer_to_parameters is an equivalent mutant here).  Learned dataset parameters (scan positions, descan "
+    "shifts) are not named by the property and are only observed through the losses/object/probe they influence.",
     design="DESIGN.md §3 C05",
 )
